@@ -68,7 +68,9 @@ RULE = (
     "12 % of them place 1-2 requests (plain / with a request queued behind / streaming) so that they are in flight at "
     "the shutdown instant and end while a slow on_shutdown handler is still running; in 8 % (AppRunner only) the task "
     "awaiting cleanup() is cancelled 0 .. 1.5 x shutdown_timeout after on_shutdown was delivered, while the server "
-    "drains the requests in flight (only the clauses that do not depend on cleanup() returning are judged then). "
+    "drains the requests in flight (only the clauses that do not depend on cleanup() returning are judged then); in "
+    "12 % a client that sends nothing is accepted by the listening socket at the very instant the shutdown is requested "
+    "(just before / after the call) and its connection_made() is delivered 0-4 loop iterations after the accept. "
     "Non-trivial: part 1 - at least two contexts started and at least one callback raised; part 2 - the shutdown fired "
     "while at least one handler was running and at least one other connection was idle or half-received. "
     "Distinct = interleaving signature."
@@ -84,7 +86,9 @@ ENUM_RULE = (
     "step from just before the first client connects up to the horizon x {AppRunner.cleanup(), SIGTERM to run_app}. "
     "First of all: 6 shapes x every first failing start-up position x ONE teardown step ending with CancelledError "
     "(alone / with one other step raising) x both entry points; and 4 baselines x the task awaiting "
-    "AppRunner.cleanup() cancelled at 8 offsets (0 .. 1.5 x shutdown_timeout) after on_shutdown was delivered."
+    "AppRunner.cleanup() cancelled at 8 offsets (0 .. 1.5 x shutdown_timeout) after on_shutdown was delivered; and 3 "
+    "baselines x 2 shutdown instants x a silent connection accepted just before / after the shutdown call x its "
+    "connection_made() 0..4 loop iterations after the accept x both entry points."
 )
 COMPONENTS = {
     "real": ["aiohttp.web.Application / CleanupContext / signals / sub-applications", "web_runner.AppRunner, TCPSite",
@@ -105,6 +109,9 @@ ASSUMPTIONS = [
     "a caller that cancels the task awaiting AppRunner.cleanup() while requests are drained still gets the cleanup code "
     "of started contexts run once; connection states and timeouts are not judged for such a run (cleanup did not return)",
     "TCP stream semantics of SimNet; a close by the server reaches the client as EOF after the bytes in flight",
+    "a connection whose connection_made() was delivered before on_shutdown began and from which no byte has reached "
+    "the server is an idle connection (closed at once = by the time on_shutdown has been delivered); one whose "
+    "connection_made() comes later is only required to be closed when cleanup returns",
 ]
 
 ADDR = ("10.0.0.1", 80)
@@ -352,7 +359,23 @@ def _gen_part2(rng):
         if not any(c["kind"] in ("sleep", "stream", "ws_mute", "pipe") for c in scn["conns"]):
             scn["conns"].append(_conn("sleep", rng.randint(1, 8), ms=rng.choice(durs[1:])))
         scn["feature"] = (scn.get("feature", "") + "+cancel_cleanup").lstrip("+")
+    if rng.random() < 0.12:
+        _accept_race_feature(rng, scn)
     return scn
+
+
+ACCEPT_LAGS = (0, 1, 2, 3, 4)
+
+
+def _accept_race_feature(rng, scn):
+    """A client whose TCP connection is accepted by the listening socket at the very instant the shutdown is
+    requested (just before / just after the call), and which sends nothing.  As with a real listening socket the
+    server protocol's connection_made() is delivered `lag` loop iterations after the accept (asyncio: accept in
+    the reader callback -> transport set-up task -> connection_made via call_soon), so it lands before, between
+    or after the first steps of the shutdown sequence.  A connection that is established when on_shutdown begins
+    and has never carried a byte is an idle connection."""
+    scn["accept_race"] = {"lag": rng.choice([0, 1, 1, 2, 2, 3, 4]), "order": rng.choice(["before", "after"])}
+    scn["feature"] = (scn.get("feature", "") + "+accept_race").lstrip("+")
 
 
 def _window_feature(rng, scn):
@@ -436,9 +459,23 @@ def _cancel_cleanup_cases(tier):
                            feature="cancel_cleanup")
 
 
+def _accept_race_cases(tier):
+    """Part 2: a connection accepted at the shutdown instant (just before / just after the shutdown call) that
+    never sends anything, its connection_made() delivered 0..4 loop iterations after the accept."""
+    sc = {name: base for name, base, _stride in _scenes(tier)}
+    for name in ("A", "B", "W"):
+        for entry in ("runner", "run_app"):
+            for sd in ({"step": None}, {"t": 10}):
+                for lag in ACCEPT_LAGS:
+                    for order in ("before", "after"):
+                        yield dict(sc[name], entry=entry, scene=name + "-ar", shutdown=sd,
+                                   accept_race={"lag": lag, "order": order}, feature="accept_race")
+
+
 def enumerate_cases(tier, seed):
     yield from _cancel_mode_cases(tier)
     yield from _cancel_cleanup_cases(tier)
+    yield from _accept_race_cases(tier)
     yield from _part2_cases(tier)
     yield from _part1_cases(tier)
 
@@ -510,6 +547,13 @@ def shrink(scn):
         for d in (0, cc["after_ms"] // 2):
             if d < cc["after_ms"]:
                 yield dict(scn, cancel_cleanup={"after_ms": d})
+    ar = scn.get("accept_race")
+    if ar is not None:
+        yield {k: v for k, v in scn.items() if k != "accept_race"}
+        if ar["lag"] > 0:
+            yield dict(scn, accept_race=dict(ar, lag=ar["lag"] - 1))
+        if ar["order"] != "before":
+            yield dict(scn, accept_race=dict(ar, order="before"))
     for i in range(len(conns)):
         if lr is not None and lr[0] == i:
             continue
@@ -1102,7 +1146,10 @@ def _run_part2(scn, ch, log):
                 idle = (bool(m["reqs"]) and m["ws"] is None and m["kind"] in ("idle", "idle2") and all_sent and running == 0
                         and len(mine) == len(m["reqs"]) and flushed and rest == "clean"
                         and len([r for r in resps if r["complete"]]) == len(m["reqs"]) and not str_._closing)
-                snap[ci] = {"idle": idle, "running": running, "closing": str_._closing or str_._closed}
+                # established (connection_made delivered) and no byte of a request has ever reached the server
+                unused = (m["made_step"] is not None and not str_.recv_log and not (str_._closing or str_._closed)
+                          and not (ctr._closing or ctr._closed))
+                snap[ci] = {"idle": idle, "running": running, "closing": str_._closing or str_._closed, "unused": unused}
             st["marker"] = {"t": loop.time(), "step": loop.steps, "snap": snap,
                             "listening": ADDR in net.listeners}
             loop.note("marker", "on_shutdown")
@@ -1171,7 +1218,8 @@ def _run_part2(scn, ch, log):
                 conns[ci] = None
                 return
             conns[ci] = {"cl": cl, "ctr": ctr, "str": str_, "reqs": reqs, "ws": wsmode, "kind": c["kind"],
-                         "obs": by_tr[str_.name], "t_conn": loop.time(), "late": False, "gone": False}
+                         "obs": by_tr[str_.name], "t_conn": loop.time(), "late": False, "gone": False,
+                         "made_step": loop.steps}
             if st.get("first_client_step") is None:
                 st["first_client_step"] = loop.steps
             if c["kind"] == "gone":
@@ -1197,7 +1245,44 @@ def _run_part2(scn, ch, log):
                 return
             late["conn"]["accepted"] = True
             conns[ci] = {"cl": cl, "ctr": ctr, "str": str_, "reqs": [_get("/fast", ci)], "ws": None, "kind": "late",
-                         "obs": by_tr[str_.name], "t_conn": loop.time(), "late": True, "gone": False}
+                         "obs": by_tr[str_.name], "t_conn": loop.time(), "late": True, "gone": False,
+                         "made_step": loop.steps}
+
+        arace = scn.get("accept_race")
+
+        def race_connect():
+            """The listening socket accepts a TCP connection now; the server protocol's connection_made() follows
+            `lag` loop iterations later (0: at once, like the other scripted clients).  The client sends nothing."""
+            ci = 91
+            srv = net.find_listener(ADDR)
+            late["race"] = {"t": loop.time(), "step": loop.steps, "accepted": srv is not None}
+            if srv is None:
+                conns[ci] = None
+                return
+            loop.faults["accepted_at_shutdown_instant"] += 1
+            cl = _Client(loop, [])
+            ctr, str_ = net.make_pair(ADDR, server_ssl=srv.ssl)
+            sproto = srv.factory()
+            ctr.protocol, str_.protocol, str_.server = cl, sproto, srv
+            srv.transports.append(str_)
+            net.on_connect(ctr, str_)
+            net.hold(str_.inp)  # nothing is read from a socket before its transport exists
+            m = conns[ci] = {"cl": cl, "ctr": ctr, "str": str_, "reqs": [], "ws": None, "kind": "accepted_at_shutdown",
+                             "obs": by_tr[str_.name], "t_conn": loop.time(), "late": False, "gone": False,
+                             "made_step": None}
+            cl.connection_made(ctr)
+            loop.note("accepted", str_.name)
+
+            def hop(n):
+                if n > 0:
+                    loop.call_soon(hop, n - 1)
+                    return
+                m["made_step"] = loop.steps
+                loop.note("made", str_.name)
+                sproto.connection_made(str_)
+                net.release(str_.inp)
+
+            hop(arace["lag"])
 
         def late_request():
             ci = scn["late_req"][0]
@@ -1241,6 +1326,9 @@ def _run_part2(scn, ch, log):
         def trigger(why):
             if st["triggered"]:
                 return
+            can_fire = "runner" in box if entry == "runner" else int(signal.SIGTERM) in loop.signal_handlers
+            if arace is not None and arace["order"] == "before" and can_fire:
+                race_connect()
             if entry == "runner":
                 if "runner" not in box:
                     return
@@ -1248,6 +1336,8 @@ def _run_part2(scn, ch, log):
             elif not loop.deliver_signal(signal.SIGTERM):
                 return
             st["triggered"] = True
+            if arace is not None and arace["order"] != "before":
+                race_connect()
             st["trigger"] = {"t": loop.time(), "step": loop.steps, "why": why}
             loop.faults["shutdown_" + why] += 1
             loop.note("trigger", why)
@@ -1300,6 +1390,26 @@ def _run_part2(scn, ch, log):
                      "trigger_step": (st.get("trigger") or {}).get("step") or loop.steps}
         mk = st["marker"]
         names = {ci: (m["kind"] if m else "refused") for ci, m in conns.items()}
+
+        def made_late(ci):
+            """accepted by the listening socket before it was closed, connection_made() delivered only after
+            on_shutdown had begun (or never)"""
+            m = conns.get(ci)
+            return bool(m and mk and (m["made_step"] is None or m["made_step"] > mk["step"]))
+
+        def judge_unused(eps=1e-6):
+            # a connection that was established when on_shutdown began and had never carried a byte is idle:
+            # closed at once (same latitude as for idle keep-alive connections: by the time on_shutdown is delivered)
+            for ci, sn in mk["snap"].items():
+                if not sn.get("unused"):
+                    continue
+                ct = conns[ci]["obs"]["close_t"]
+                if ct is None or ct > st["hooks_done"] + eps:
+                    violate("idle_closed_at_once", f"{entry}:never_used_connection_closed_late",
+                            f"connection {ci} ({names[ci]}) was established (connection_made at step "
+                            f"{conns[ci]['made_step']}) and had not sent a byte when on_shutdown began "
+                            f"(t={mk['t']:.4f}, step {mk['step']}) but its transport was closed at {ct} (on_shutdown "
+                            f"delivered by {st['hooks_done']:.4f}, timeout {T}); {ctxd}")
         ctxd = f"scene={scn.get('scene')} T={T} entry={entry} trigger={st.get('trigger')} marker=" \
                f"{None if mk is None else (round(mk['t'], 4), mk['step'])} hooks_done={st['hooks_done']} " \
                f"returned_at={st.get('t_return')} conns={names}"
@@ -1335,17 +1445,21 @@ def _run_part2(scn, ch, log):
                     violate("idle_closed_at_once", f"{entry}:idle_keepalive_closed_late",
                             f"connection {ci} was idle keep-alive at on_shutdown (t={mk['t']:.4f}) but its transport was "
                             f"closed at {ct} (on_shutdown delivered by {st['hooks_done']:.4f}, timeout {T}); {ctxd}")
+            judge_unused()
         else:
             b = L.shutdown_bounds(st["hooks_done"], T)
             eps = 1e-6
             ar = st["at_return"]
             # every server-side transport closed, no handler alive, listener gone
             if ar["open"]:
-                kinds = sorted({names[ci] for ci in ar["open"]})
+                kinds = sorted({"connection_made_after_on_shutdown_began" if made_late(ci) else names[ci] for ci in ar["open"]})
                 violate("all_closed_on_return", f"{entry}:open_transport:{'+'.join(kinds)}",
                         f"server-side transports of connections {ar['open']} still open when shutdown returned; {ctxd}")
             if ar["running"] or ar["alive_tasks"]:
                 gone = sorted({("client_gone" if conns[ci] and conns[ci]["gone"] else "client_connected") for ci in ar["running"]})
+                if not gone and ar["alive_tasks"] <= sum(1 for ci in ar["open"] if made_late(ci)):
+                    # only the connection tasks of connections that were never shut down (see all_closed_on_return)
+                    gone = ["connection_made_after_on_shutdown_began"]
                 violate("no_handler_alive_on_return", f"{entry}:handler_alive:{'+'.join(gone) or 'task_only'}",
                         f"request handlers of connections {ar['running']} still running ({ar['alive_tasks']} "
                         f"RequestHandler tasks alive) when shutdown returned; {ctxd}")
@@ -1396,6 +1510,7 @@ def _run_part2(scn, ch, log):
                     violate("idle_closed_at_once", f"{entry}:idle_keepalive_closed_late",
                             f"connection {ci} was idle keep-alive at on_shutdown (t={mk['t']:.4f}) but its transport was "
                             f"closed at {ct} (on_shutdown delivered by {st['hooks_done']:.4f}, timeout {T}); {ctxd}")
+            judge_unused(eps)
             # ... and so are connections that become idle while the shutdown is going on: the request that was in
             # flight returned normally after on_shutdown began -> its connection is closed at that instant (at the
             # latest when on_shutdown has been delivered, the same latitude as for connections idle from the start)
@@ -1465,7 +1580,8 @@ def _run_part2(scn, ch, log):
                     violate("well_formed_responses", f"{entry}:more_responses_than_requests:{m['kind']}",
                             f"connection {ci}: {len(finals)} responses for {len(mine)} handled requests; {ctxd}")
                 if not closed:
-                    violate("all_closed_on_return", f"{entry}:client_saw_no_close:{m['kind']}",
+                    kind = "connection_made_after_on_shutdown_began" if made_late(ci) else m["kind"]
+                    violate("all_closed_on_return", f"{entry}:client_saw_no_close:{kind}",
                             f"client of connection {ci} saw neither EOF nor connection loss after shutdown returned; {ctxd}")
         for c in loop.exc_contexts:
             violate("loop_exception", f"{entry}:{c['exc_type']}@{c.get('frame')}",
@@ -1505,6 +1621,10 @@ def _run_part2(scn, ch, log):
             "p2_late_conn_accepted_before_stop": int(bool(late.get("conn", {}).get("accepted"))),
             "p2_late_request_sent": int(any(m and "late_req_at" in m for m in conns.values())),
             "p2_stream_truncated": int(any(m and m["kind"] == "stream" and any(r["out"] == "cancelled" for r in recs if r["conn"] == ci) for ci, m in conns.items())),
+            "p2_accepted_at_shutdown_instant": int(bool(late.get("race", {}).get("accepted"))),
+            "p2_accepted_at_shutdown_made_before_on_shutdown": int(bool(conns.get(91)) and not made_late(91)),
+            "p2_accepted_at_shutdown_made_after_on_shutdown": int(bool(conns.get(91)) and made_late(91)),
+            "p2_never_used_connection_at_on_shutdown": int(any(sn.get("unused") for sn in snap.values())),
             "p2_cleanup_task_cancelled_while_draining": int(bool(st.get("cleanup_cancelled"))),
             "p2_cleanup_task_cancelled_in_grace_period": int(bool(st.get("cleanup_cancelled")) and bb is not None
                                                              and st["cleanup_cancelled"]["t"] < bb["grace_min"]),
